@@ -56,6 +56,14 @@ def universe(thorough):
         ("[{'a':0,'b':1}]", lambda: [{'a': 0, 'b': 1}]), ("[{'b':1,'a':0}]", lambda: [{'b': 1, 'a': 0}]),
         ('[A(0),A(1)]', lambda: [A(x=0), A(x=1)]), ('[A(1),A(0)]', lambda: [A(x=1), A(x=0)]),
         ("{'k':[A(0)]}", lambda: {'k': [A(x=0)]}), ('[True]', lambda: [True]), ('[1.0]', lambda: [1.0]),
+        # same key set, different insertion order, values crossed (a walk in either operand's own order decides on a
+        # different key): plain, symbolic, nested, int keys, three keys
+        ("{'b':0,'a':1}", lambda: {'b': 0, 'a': 1}), ("{'a':1,'b':0}", lambda: {'a': 1, 'b': 0}),
+        ('pg.Dict(b=0,a=1)', lambda: pg.Dict(b=0, a=1)), ('pg.Dict(a=1,b=0)', lambda: pg.Dict(a=1, b=0)),
+        ("[{'b':0,'a':1}]", lambda: [{'b': 0, 'a': 1}]), ("A({'b':0,'a':1})", lambda: A(x={'b': 0, 'a': 1})),
+        ("{'k':{'b':0,'a':1}}", lambda: {'k': {'b': 0, 'a': 1}}), ("{'k':{'a':0,'b':1}}", lambda: {'k': {'a': 0, 'b': 1}}),
+        ('{0:0,1:1}', lambda: {0: 0, 1: 1}), ("{'a':1,0:'w'}", lambda: {'a': 1, 0: 'w'}), ("{0:'x','a':0}", lambda: {0: 'x', 'a': 0}),
+        ("{'c':0,'b':1,'a':2}", lambda: {'c': 0, 'b': 1, 'a': 2}), ("{'b':0,'c':2,'a':1}", lambda: {'b': 0, 'c': 2, 'a': 1}),
     ]
   u += dynamic_keys() + mutated() + special_objects()
   if thorough:
